@@ -172,6 +172,9 @@ pub fn run_batch(
     let start = Instant::now();
     let next = AtomicU64::new(0);
     let stop = AtomicBool::new(false);
+    // a tree that violates the property in thousands of runs has been judged: stop early
+    let violating = AtomicU64::new(0);
+    let violating_cap: u64 = 5000;
     let acc: Mutex<BatchResult> = Mutex::new(BatchResult::default());
     let chunk: u64 = 64;
 
@@ -191,6 +194,9 @@ pub fn run_batch(
                         }
                         let hi = (lo + chunk).min(runs);
                         for r in lo..hi {
+                            if stop.load(Ordering::Relaxed) {
+                                break;
+                            }
                             let out = one(r);
                             local.runs += 1;
                             for (k, v) in &out.stats {
@@ -212,6 +218,9 @@ pub fn run_batch(
                             local.steps += out.steps;
                             if !out.violations.is_empty() {
                                 local.violating_runs += 1;
+                                if violating.fetch_add(1, Ordering::Relaxed) + 1 >= violating_cap {
+                                    stop.store(true, Ordering::Relaxed);
+                                }
                             }
                             for v in out.violations {
                                 let class = v.class();
